@@ -293,6 +293,44 @@ impl<T: Elem + SatisfyTraits<Tr>, M: MX, Tr: TrX + ?Sized> World<T, M, Tr> {
     }
 
     /// C04: element_typeid / element_layout of the vector and of typed views
+    /// variant 1: the published element functions (`element_clone()`, `element_drop()`) called by hand do to a scratch buffer
+    /// exactly what the vector does with them: one `Clone` per element, one destructor run per element.
+    pub fn do_element_fns(&mut self, out: &mut Out) {
+        let a = &self.a;
+        let len = a.len();
+        let mut scratch: Vec<std::mem::MaybeUninit<T>> = { let _w = elem::WindowOff::new(); (0..len).map(|_| std::mem::MaybeUninit::uninit()).collect() };
+        let base = scratch.as_mut_ptr() as *mut u8;
+        let mut want: Vec<Mv> = Vec::new();
+        match Tr::element_clone_fn(a) {
+            Some(f) => {
+                let before = elem::with_reg(|r| r.clones + r.zst_clones);
+                let src = a.downcast_ref::<T>().unwrap().as_ptr() as *const u8;
+                match guarded(|| unsafe { f(src, base, len) }) {
+                    Ok(()) => {}
+                    Err(Caught::Injected) => { out.faulted = true; return; }
+                    Err(Caught::Panic(m)) => { out.fail(Class::Vec, "unexpected-panic", format!("element_clone() function panicked: {m}")); out.faulted = true; return; }
+                }
+                let n = elem::with_reg(|r| r.clones + r.zst_clones) - before;
+                if n as usize != len { out.fail(Class::Vec, "clone-count", format!("element_clone()(src, dst, {len}) made {n} Clone calls")); out.faulted = true; return; }
+                want.extend(self.ma.iter().map(|m| Mv::CloneOf(match m { Mv::Id(i) => *i, Mv::CloneOf(p) => *p })));
+            }
+            None => { for s in scratch.iter_mut() { let v = T::fresh(); want.push(Mv::Id(v.id())); s.write(v); } }
+        }
+        let got: crate::exec::Snap = scratch.iter().map(|s| { let t = unsafe { s.assume_init_ref() }; (t.id(), t.intact()) }).collect();
+        if !snap_matches::<T>(&got, &want) { out.fail(Class::Vec, "clone-seq", format!("element_clone() function produced {:?}, want clones of {:?}", got, self.ma)); }
+        let ids: Vec<u16> = got.iter().map(|g| g.0).collect();
+        match a.element_drop() {
+            Some(d) => {
+                if let Err(x) = guarded(|| unsafe { d(base, len) }) { if matches!(x, Caught::Injected) { out.faulted = true; } else { out.fail(Class::Own, "drop-panicked", format!("element_drop() function panicked: {x:?}")); } return; }
+                if T::SIZE != 0 && T::HAS_DROP { for id in &ids { if elem::state_of(*id) != elem::IdState::Dead { out.fail(Class::Own, "leak", format!("element_drop()(ptr, {len}) did not destroy id {id}")); } } }
+            }
+            None => { if T::HAS_DROP { out.fail(Class::Type, "element-drop", "element_drop() is None for an element type with drop glue".into()); } }
+        }
+        let s = snap::<T, Tr, M>(a);
+        if !snap_matches::<T>(&s, &self.ma) { out.fail(Class::Vec, "seq-mismatch", "contents changed by calling the element functions on a scratch buffer".into()); }
+        out.outcome.push_str("ok");
+    }
+
     pub fn do_type_reports(&mut self, out: &mut Out) {
         let a = &self.a;
         if a.element_typeid() != TypeId::of::<T>() { out.fail(Class::Type, "element-typeid", "element_typeid() is not the element type".into()); }
